@@ -4,9 +4,10 @@ CONSTANTS NMax = 35
  AllPos = FALSE
  DetMax = 6
  Draws = 3
+ Lean = TRUE
  PosPer = 2
- Extra = 400
- PredExtra = 250
+ Extra = 250
+ PredExtra = 120
  IseqExtra = 60
 INVARIANT ExactPre
 INVARIANT PatternHolds
